@@ -25,6 +25,7 @@ type stopRaceCase struct {
 	Op    string `json:"op"`    // attach | clone | walk | create | open | stat
 	Fault string `json:"fault"` // close | ctx | readerr
 	Delay int    `json:"delay_ms"`
+	Burst bool   `json:"burst"` // do not wait for the handler to be inside the FileSys call
 }
 
 func runStopRace(c stopRaceCase, res *hx.Result) {
@@ -108,17 +109,19 @@ func runStopRace(c stopRaceCase, res *hx.Result) {
 		m = p9p.MessageTstat{Fid: 0}
 	}
 	mu.Lock()
-	armed = true
+	armed = !c.Burst
 	mu.Unlock()
 	if err := ch.WriteFcall(bg, &p9p.Fcall{Type: m.Type(), Tag: 2, Message: m}); err != nil {
 		fail("send", err)
 		return
 	}
-	select {
-	case <-parked:
-	case <-time.After(3 * time.Second):
-		fail("park", fmt.Errorf("the FileSys call %s was never made", park))
-		return
+	if !c.Burst { // burst: the fault strikes right behind the request, before its handler may have started
+		select {
+		case <-parked:
+		case <-time.After(3 * time.Second):
+			fail("park", fmt.Errorf("the FileSys call %s was never made", park))
+			return
+		}
 	}
 	switch c.Fault {
 	case "close":
@@ -187,8 +190,14 @@ func StopRace(args []string) {
 	for _, op := range []string{"attach", "clone", "walk", "create", "open", "stat"} {
 		for _, f := range []string{"close", "ctx", "readerr"} {
 			for _, d := range []int{0, 15} {
-				cases = append(cases, stopRaceCase{op, f, d})
+				cases = append(cases, stopRaceCase{op, f, d, false})
 			}
+		}
+	}
+	burst := []stopRaceCase{}
+	for _, op := range []string{"attach", "clone", "walk", "create"} {
+		for _, f := range []string{"close", "ctx"} {
+			burst = append(burst, stopRaceCase{op, f, 0, true})
 		}
 	}
 	var wg sync.WaitGroup
@@ -202,7 +211,21 @@ func StopRace(args []string) {
 		}
 	}
 	wg.Wait()
-	res.Evaluations = len(cases) * *reps
+	// burst cases: many repetitions, few at a time (the window is the start of the handler goroutine)
+	sem := make(chan struct{}, 4)
+	for k := 0; k < 40**reps && res.NViol() < 10; k++ {
+		for _, c := range burst {
+			wg.Add(1)
+			sem <- struct{}{}
+			go func(c stopRaceCase) {
+				defer wg.Done()
+				defer func() { <-sem }()
+				runStopRace(c, res)
+			}(c)
+		}
+	}
+	wg.Wait()
+	res.Evaluations = len(cases)**reps + 40**reps*len(burst)
 	res.Distinct = len(cases)
 	res.Sample(cases[0])
 	res.Sample(cases[len(cases)-1])
